@@ -144,6 +144,9 @@ Pre(s, op, a) ==
     [] op = "set_flow" -> a.x \in Names /\ a.p \in Range(t[a.x].ph) /\ a.c \in PkgChems[t[a.x].pkg] /\ a.v >= 0
     [] op = "set_T" -> a.x \in Names
     [] op = "set_P" -> a.x \in Names
+    \* assign the enthalpy / entropy the stream already has and put the temperature back (entropy: gas only, see the C02 findings)
+    [] op = "reassign" -> /\ a.x \in Names /\ ~Empty(t[a.x]) /\ a.q \in {"H", "S"}
+                          /\ a.q = "S" => \A i \in DOMAIN t[a.x].ph : IsZero(t[a.x].fl[t[a.x].ph[i]]) \/ t[a.x].ph[i] = "g"
     \* representation changes are specified for streams that share no container (a new indexer is built)
     [] op = "set_phases" -> a.x \in Names /\ Alone(t, a.x) /\ a.phs # <<>> /\ Range(a.phs) \subseteq AllPhases /\ Fits(t[a.x], Range(a.phs))
     [] op = "set_phase" -> a.x \in Names /\ a.p \in AllPhases /\ (t[a.x].k = "m" => Alone(t, a.x))
@@ -229,6 +232,7 @@ Post(s, op, a) ==
     [] op = "set_T" -> [s EXCEPT !.st = PutTP(t, a.x, a.T, t[a.x].P)]
     [] op = "view_set_T" -> [s EXCEPT !.st = PutTP(t, a.x, a.T, t[a.x].P)]
     [] op = "set_P" -> [s EXCEPT !.st = PutTP(t, a.x, t[a.x].T, a.P)]
+    [] op = "reassign" -> s
     [] op = "set_phases" ->
          IF Cardinality(Range(a.phs)) = 1 THEN
             LET p == a.phs[1] IN
